@@ -94,10 +94,31 @@ def one(run, F, E):
         # a state without injections derives from A_<B_<Args>>: B_ has no user code
         inj = [i for i in inj if i != 'B_<>']
         me = short_cls(state_cls)
+        # the state's own step: `Head::X(control)` -- resolved to the state's callback if it defines one, otherwise it must resolve to a
+        # library no-op (A_/B_ stub); were it to resolve to an injection's callback, that callback runs twice (it then shows up in `seq`)
+        c = cfgmod.cfg_of(fn)
+        own = []
+        for n in c.events(('call',)):
+            g, u = anchors.call_target(F, E, fn, n)
+            name = g.m if g is not None else (u.get('m') if u is not None else n.e.get('m'))
+            if anchors.is_logger_call(n.e) or name != user_m:
+                continue
+            if u is not None:
+                own.append(short_cls(u.get('cls')))
+            elif g is not None and g.tkey in ('ffsm2::detail::A_', 'ffsm2::detail::B_') and g.m == user_m:
+                body_calls = [x for x in ir.all_exprs(g) if x['k'] == 'call']
+                if body_calls:
+                    raise AnalysisBroken('%s is not a no-op stub' % g.short)
+                own.append(None)
+        if len(own) != 1:
+            raise AnalysisBroken('%s: expected exactly one call of the state\'s own %s, found %d' % (fn.short, user_m, len(own)))
+        mine = [(me, user_m)] if own[0] is not None else []
+        if own[0] is not None and own[0] != me:
+            mine = [(me, user_m)]       # resolves to somebody else's callback: the comparison below fails and shows it
         if user_m in SETUP:
-            want = [(i, user_m) for i in inj] + [(me, user_m)]
+            want = [(i, user_m) for i in inj] + mine
         else:
-            want = [(me, user_m)] + [(i, user_m) for i in reversed(inj)]
+            want = mine + [(i, user_m) for i in reversed(inj)]
         ok = seq == want and flags['unconditional'] and flags['ordered']
         run.ob('C15.a', '%s(%s, k=%d): %s' % (fn.m, me, len(inj), ' '.join('%s::%s' % x for x in want)), ok, where=fn.pat,
                detail=None if ok else {'got': ['%s::%s' % x for x in seq], 'flags': flags},
